@@ -305,7 +305,8 @@ def execute(cfg: dict, *, stop_at_first=True, trace=False) -> RunResult:
               "undefined_skips": 0}
 
     def violate(inv, symptom, detail, op, site=""):
-        res.violations.append(Violation(PROP, inv, spec.name, symptom, detail, op.get("id", -1), _opk(op), site))
+        res.violations.append(Violation(PROP, inv, spec.name, symptom, detail, op.get("id", -1), _opk(op), site,
+                                        core.config_tags(cfg)))
 
     def mirrored(flag):
         # deferred sorting is documented behaviour: only classes that sort in _post_compute mirror compute()
@@ -338,7 +339,10 @@ def execute(cfg: dict, *, stop_at_first=True, trace=False) -> RunResult:
                 raise sched.SimHarnessError(got.exc_msg)
             diffs = oracle.compare(got, want, tol, path=_qname(q))
             if diffs:
-                violate(inv, core.symptom_of(diffs), f"{target}.{_qname(q)}: " + "; ".join(diffs[:3]), op)
+                sym = core.symptom_of(diffs)
+                if sym == "values" and not oracle.compare(got, want, tol, path=_qname(q), relax={"sign": True}):
+                    sym = "values:signflip"     # equal up to the sign of whole modes
+                violate(inv, sym, f"{target}.{_qname(q)}: " + "; ".join(diffs[:3]), op)
                 return
 
     def probe(op, k=2, inv="H1"):
@@ -381,7 +385,7 @@ def execute(cfg: dict, *, stop_at_first=True, trace=False) -> RunResult:
                             f"on a fresh object -> {rout.kind()} {rout.exc_msg[:160]!r}", op)
                 elif out.ok:
                     st["m_fit"] = op["fit"]
-                    st["m_computed"] = bool(cfg["params"].get("compute", True)) or not cfg["lazy"]
+                    st["m_computed"] = bool(cfg["params"].get("compute", True))
                     probe(op, k=3, inv="H2" if counts["refits"] else "H1")
                 else:
                     counts["failed_fits"] += 1
